@@ -6,6 +6,7 @@ import PoaVerif.Witness.D5
 import PoaVerif.Facts
 import PoaVerif.Lemmas.RunTotal
 import PoaVerif.Lemmas.Quiet
+import PoaVerif.Lemmas.Quiet2.Run
 /-
   C04 — no transaction sequence halts the chain; updates are always valid for CometBFT.
   FALSE of the code as stated (defect classes D2–D7); machine-checked witnesses below, plus what is proved.
@@ -135,6 +136,20 @@ theorem c04_power_adjustments (g : Genesis) (hw : g.wf = true) (bs : List Block)
     ∃ first steps, run genEnv g bs = some (first, steps, RunEnd.done) ∧ steps.length = bs.length := by
   obtain ⟨first, steps, h1, h2, _⟩ := quiet_history g hw bs hq
   exact ⟨first, steps, h1, h2⟩
+
+/-- **C04 for every quiet history, removals included** (see `Props.C02.c02_removals` for the hypothesis): the run
+    reaches its end with one step per block — neither the removals, nor the unbonding of the removed validators, nor
+    the deletion of their matured records halts the chain, and CometBFT accepts every update list; the last active
+    validator is never removed (`St.hasActive` is part of the invariant) -/
+theorem c04_removals (g : Genesis) (hw : g.wf = true) (bs : List Block) (hq : QuietHistory2 g bs) :
+    ∃ first steps, run genEnv g bs = some (first, steps, RunEnd.done) ∧ steps.length = bs.length ∧
+      ∀ st ∈ first :: steps, ∃ v ∈ st.app.vals, Active v := by
+  obtain ⟨first, steps, h1, h2, _, hg, h5⟩ := quiet_history2 g hw bs hq
+  refine ⟨first, steps, h1, h2, ?_⟩
+  intro st hst
+  rcases List.mem_cons.mp hst with e | e
+  · rw [e]; exact hg.st.hasActive
+  · exact (h5 st e).2.st.hasActive
 
 /-- non-vacuity: blocks of the D3 witness history before the double SetPower lie inside `Pre` with successful
     BeginBlockers -/
